@@ -62,6 +62,9 @@ func logSummary(n int) (sum int64, flushes, closes, lastFlush, lastReport, close
 
 // c08Close: a root with a reporting interval (ticker delivers up to `ticks` ticks), values
 // recorded before Close, `closers` concurrent Close callers.
+var c08Shards uint = 1
+var c08LateInc bool
+
 func c08Close(interval bool, ticks, closers, preempt int, withCloser bool) {
 	verifrt.SetTicks(ticks)
 	closeErr := errors.New("reporter close error")
@@ -78,11 +81,22 @@ func c08Close(interval bool, ticks, closers, preempt int, withCloser bool) {
 	if interval {
 		iv = time.Second
 	}
-	root := newRootScope(ScopeOptions{Reporter: rep, OmitCardinalityMetrics: true, registryShardCount: 1}, iv)
+	root := newRootScope(ScopeOptions{Reporter: rep, OmitCardinalityMetrics: true, registryShardCount: c08Shards}, iv)
 	sub := root.SubScope("s")
 	c1, c2 := root.Counter("a"), sub.Counter("b")
 	c1.Inc(v1)
 	c2.Inc(v2)
+	if c08LateInc {
+		// one more increment on the root, by another goroutine, possibly while a periodic pass
+		// is half-way through the registry; it has returned before Close is called
+		v3 := verifrt.Int64("inc")
+		verifrt.Assume(verifrt.And(v3 != 0, v1+v3 != 0))
+		var iwg sync.WaitGroup
+		iwg.Add(1)
+		go func() { defer iwg.Done(); c1.Inc(v3) }()
+		iwg.Wait()
+		v1 += v3
+	}
 	// everything above is recorded before Close is called
 	errs := make([]error, closers)
 	at := make([]int, closers)
@@ -155,3 +169,7 @@ func VerifC08TwoClosers()  { c08Close(true, 1, 2, 2, true) }
 func VerifC08TwoTicks()    { c08Close(true, 2, 1, 2, true) }
 func VerifC08TwoClosers0() { c08Close(false, 0, 2, 2, true) }
 func VerifC08Preempt3()    { c08Close(true, 1, 1, 3, true) }
+
+// VerifC08Shards2Late: two registry shards (the root is in both) and an increment that lands
+// while a periodic pass may be between them.
+func VerifC08Shards2Late() { c08Shards, c08LateInc = 2, true; c08Close(true, 1, 1, 2, false) }
